@@ -369,6 +369,7 @@ static const workload_t *cur_w;
 static const variant_t *cur_v;
 static uint64_t cur_mask;
 static int replay_mode;
+static int cur_tier;            /* the workload generator depends on it: part of every spec line */
 static struct { long runs, viol, deadlocks, faultruns, fault_fired, fault_reported, fault_tolerated, steps, decisions, refs, files, blocks_sparse,
 		frag_blocks, dedup_hits, nontrivial; uint64_t agg; } A;
 
@@ -376,7 +377,7 @@ static void print_run_line(FILE *fp, const char *tag)
 {
 	char buf[20000];
 	variant_print(cur_v, buf, sizeof(buf));
-	fprintf(fp, "%s wl=%llu mask=%llx %s", tag, (unsigned long long)cur_w->wseed, (unsigned long long)cur_mask, buf);
+	fprintf(fp, "%s wl=%llu mask=%llx tier=%d %s", tag, (unsigned long long)cur_w->wseed, (unsigned long long)cur_mask, cur_tier, buf);
 }
 
 static void print_stats(void)
@@ -795,6 +796,7 @@ int main(int argc, char **argv)
 		int tier = 0;
 		replay_mode = 1;
 		variant_parse(argv[2], &v, &wseed, &mask, &tier);
+		cur_tier = tier;
 		workload_generate(&w, wseed, tier);
 		int bad = run_pair(&w, mask, &v, 0);
 		printf("RESULT viol=%d what=%s\n", bad || A.viol ? 1 : 0, viol);
@@ -815,6 +817,7 @@ int main(int argc, char **argv)
 		uint64_t from = strtoull(argv[3], NULL, 0), to = strtoull(argv[4], NULL, 0);
 		int tier = argc >= 6 ? atoi(argv[5]) : 0;
 		int nvar = tier ? 60 : 24;
+		cur_tier = tier;
 		for (uint64_t i = from; i < to; i++) {
 			uint64_t x = master * 0x9e3779b97f4a7c15ULL + i;
 			uint64_t wseed = sim_splitmix(&x) >> 1;
